@@ -562,8 +562,49 @@ class SemaphoreAd(Adapter):
         self.prim = Semaphore("sem", self.cap)
         return [self.prim]
 
+    tainted = False  # an undetectable surplus release was accepted: the caller broke the protocol
+
+    def admissible(self, occ):
+        return self.tainted or sum(w.amt for w in occ) <= self.cap
+
+    def head_fits(self, W, head):
+        return not self.tainted and sum(w.amt for w in W.occupying() + [head]) <= self.cap
+
+    def starved(self, W, left):
+        # once a non-holder's release was accepted the permits no longer match the holders: a later
+        # legitimate release may be refused and a waiter left behind - the caller's fault, not judged
+        return [] if self.tainted else left
+
     def script(self, W, ws):
         sem = self.prim
+        if ws.kind == "over":
+            # release(amount) by a process that holds nothing.  The semaphore can only notice it when the
+            # permits would exceed the capacity: then it must refuse (ValueError) and change nothing -
+            # "a release never pushes it above capacity" - also while acquirers are queued.
+            av, nw = pub(sem, "available"), pub(sem, "waiters", 0)
+            W.note(ws, "over-release", ws.amt)
+            try:
+                sem.release(ws.amt)
+                accepted = True
+            except ValueError:
+                accepted = False
+            ws.state = DONE
+            if av is None:
+                return None
+            if av + ws.amt > self.cap:
+                shape = "over-release-with-waiter-queued" if nw else "over-release"
+                if accepted:
+                    W.flag("above-capacity", shape,
+                           f"at {tk(W.now())} release({ws.amt}) by a non-holder was accepted with available={av}, "
+                           f"capacity={self.cap}, {nw} waiter(s) queued: {av}+{ws.amt} exceeds the capacity "
+                           f"(now available={pub(sem, 'available')}, waiters={pub(sem, 'waiters')})")
+                    self.tainted = True
+                elif (pub(sem, "available"), pub(sem, "waiters", 0)) != (av, nw):
+                    W.flag("conservation", shape, f"a refused release({ws.amt}) changed the state: available {av} -> "
+                                                  f"{pub(sem, 'available')}, waiters {nw} -> {pub(sem, 'waiters')}")
+            elif accepted:
+                self.tainted = True  # fits under the capacity: indistinguishable from a legitimate release
+            return None
         W.req(ws)
         if ws.kind == "try":
             if not sem.try_acquire(ws.amt):
@@ -580,15 +621,23 @@ class SemaphoreAd(Adapter):
         W.grant(ws)
         yield float(ws.hold)
         W.rel(ws)
-        evs = sem.release(ws.amt)
+        try:
+            evs = sem.release(ws.amt)
+        except ValueError:
+            if not self.tainted:
+                raise
+            evs = None  # the surplus permits of an earlier accepted non-holder release are in the way
         W.reld(ws)
         return evs
 
     def sample(self, W):
-        return self.sem_sample(W, self.cap, pub(self.prim, "available"), pub(self.prim, "waiters"))
+        av = pub(self.prim, "available")
+        if self.tainted:  # after a protocol breach by the caller only the hard bounds are judged
+            return [("above-capacity", f"available={av} > capacity={self.cap}")] if av is not None and av > self.cap else ()
+        return self.sem_sample(W, self.cap, av, pub(self.prim, "waiters"))
 
     def final(self, W):
-        return self.sem_final(W, self.cap, pub(self.prim, "available"))
+        return () if self.tainted else self.sem_final(W, self.cap, pub(self.prim, "available"))
 
 
 class MutexAd(Adapter):
@@ -1867,6 +1916,14 @@ def drivers(tier):
             plans = [(1, sem_full), (2, sem_full), (3, sem_full), (4, sem_acq_nohop)]
         D.append((nm, prim, caps, plans))
 
+    # ---- Semaphore: release() by a process that holds nothing, also while acquirers are queued ----
+    def sem_over(cfg):
+        return {"union": [[OFFS, ["acq"], amounts(cfg["cap"]), [1, 2], [0]],
+                          [[0, 1, 2, 3], ["over"], [1, 2, 3], [0], [0]]]}
+
+    plans = [(2, sem_over), (3, sem_over)] + ([] if q else [(4, sem_over)])
+    D.append(("semaphore_over_release", "Semaphore", [{"cap": 2}, {"cap": 3}], plans))
+
     # ---- Resource.set_capacity interleaved with acquire/release -----------------
     def cap_mix(hops):
         def f(cfg):
@@ -2034,7 +2091,8 @@ API_COVERAGE = {
     "Resource": {"acquire": "resource", "try_acquire": "resource", "set_capacity": "resource_setcap",
                  "Grant.release": "resource"},
     "Mutex": {"acquire": "mutex", "try_acquire": "mutex", "release": "mutex"},
-    "Semaphore": {"acquire": "semaphore", "try_acquire": "semaphore", "release": "semaphore"},
+    "Semaphore": {"acquire": "semaphore", "try_acquire": "semaphore",
+                  "release": "semaphore, semaphore_over_release (release by a non-holder)"},
     "RWLock": {"acquire_read": "rwlock", "acquire_write": "rwlock", "try_acquire_read": "rwlock",
                "try_acquire_write": "rwlock", "release_read": "rwlock", "release_write": "rwlock"},
     "Barrier": {"wait": "barrier", "reset": "barrier_reset", "abort": "barrier_reset"},
